@@ -216,7 +216,8 @@ def slice_ops(ctx):
     """G-ops: container operation sequences (C14, C03)"""
     cases = gens2.ops_cases(ctx['seed'], sz(ctx, 3000, 60000), sz(ctx, 2, 3), big_every=40)
     cases += gens2.literal_fresh_cases(ctx['seed'], sz(ctx, 400, 5000))
-    return _eval_slice('ops', cases, 'list/dict operation sequences: exhaustive to depth 2 (quick) / 3 (thorough) over 10 ops x start '
+    cases += gens2.slice_exhaustive_cases()
+    return _eval_slice('ops', cases, 'slice.indices exhaustively (lengths 0..6, bounds and steps -8..8 and absent); list/dict operation sequences: exhaustive to depth 2 (quick) / 3 (thorough) over 10 ops x start '
                        'lengths {0,2}, random sequences to length 25, start lengths incl. 9998..10001; non-trivial = evaluated (distinct)')
 
 
